@@ -62,8 +62,11 @@ def check_function(ctx, key, fn, ip, n_msg, loc=None):
                bad, bad[:1], vs.describe(got[bad[0]]) if bad and bad[0] < len(got) else '-', vs.describe(want[bad[0]]) if bad else '-'))
 
 
-def check_site(ctx, key, expr, msgs, loc):
-    """expr must equal the CRC5 field of the message bits `msgs` = [(signal name, lo, hi, width)...] in wire order."""
+def check_site(ctx, key, expr, msgs, loc, driven_by=None):
+    """expr must equal the CRC5 field of the message bits `msgs` = [(signal name, lo, hi, width)...] in wire order.
+    `driven_by` {(signal name, bit): expression driving that bit}: the message bits of an OUTPUT word are then expressed
+    through what drives them, so that computing the CRC from the word being assembled and computing it from the fields the
+    word is assembled from are the same thing."""
     vs = gf2.Vars()
     widths = {name: w for name, lo, hi, w in msgs}
     msg = []
@@ -71,6 +74,15 @@ def check_site(ctx, key, expr, msgs, loc):
         msg += vs.vec(name, w)[lo:hi]
     try:
         got = gf2.forms(expr, vs, widths)
+        if driven_by:
+            mapping = {}
+            for (name, i), ex in driven_by.items():
+                f = gf2.forms(ex, vs, widths)
+                if len(f) != 1:
+                    raise gf2.NotAffine('driver of %s[%d] is %d bits wide' % (name, i, len(f)))
+                mapping[(name, i)] = f[0]
+            got = gf2.substitute(got, vs, mapping)
+            msg = gf2.substitute(msg, vs, mapping)
     except gf2.NotAffine as ex:
         raise AnalysisError('%s: not a pure XOR network: %s' % (key, ex))
     want = ref_field(vs, msg, 0x05, 5)
@@ -208,6 +220,17 @@ def run(ctx):
            'the computed CRC5 is compared with rx_data[3:8] (found %s)' % other.canon())
     def site_assign(cls_, mod_, lhs, sig, w, lo, hi, key):
         irx = ctx.ir(cls_, mod_, allow_opaque=True)
+
+        def drivers_of(irx_, site):
+            """what drives each message bit of the word being assembled, in the state / under the guard of `site`"""
+            out = {}
+            for i in range(lo, hi):
+                bd_ = [(a_, ex) for a_, ex in q.bits_drivers(irx_, sig, i, i + 1)
+                       if a_.state == site.state and q.atoms(a_) == q.atoms(site)]
+                if len(bd_) != 1 or bd_[0][1] is None:
+                    return None
+                out[(sig, i)] = bd_[0][1]
+            return out
         if lhs is None:
             # by role: the local 5-bit register computed (not merely sliced) from the header word
             ds = [a for a in irx.assigns if isinstance(a.lhs, E) and a.lhs.op == 'sig' and isinstance(a.rhs, E) and
@@ -216,9 +239,18 @@ def run(ctx):
             lhs = 'the local 5-bit register computed from ' + sig
         else:
             ds = [a for a in irx.assigns if a.lhs.canon() == lhs]
+            if not ds and lhs.endswith(']') and '[' in lhs:
+                # the bit range may be written as part of a wider assignment (`x.eq(Cat(...))`): take the expression driving it
+                import re as _re
+                mm = _re.match(r'(.*)\[(\d+):(\d+)\]$', lhs)
+                bd = [(a, ex) for a, ex in q.bits_drivers(irx, mm.group(1), int(mm.group(2)), int(mm.group(3)))
+                      if ex is not None and ex.op not in ('const', 'sig', 'slice')]       # the computed field, not a constant word / copy
+                ctx.need(bd, '%s assignment to %s' % (cls_, lhs))
+                check_site(ctx, key, bd[0][1], [(sig, lo, hi, w)], bd[0][0].loc, driven_by=drivers_of(irx, bd[0][0]))
+                return irx
         ctx.need(ds, '%s assignment to %s' % (cls_, lhs))
         for a in ds[:1]:
-            check_site(ctx, key, a.rhs, [(sig, lo, hi, w)], a.loc)
+            check_site(ctx, key, a.rhs, [(sig, lo, hi, w)], a.loc, driven_by=drivers_of(irx, a) if lhs.startswith(sig) else None)
         return irx
     site_assign('RawPacketTransmitter', 'usb3.link.transmitter', 'self.source.payload[27:32]', 'self.source.payload', 32, 16, 27,
                 'RawPacketTransmitter.dw3-crc5')
